@@ -204,6 +204,10 @@ fn identify_reference_space_group(
     let (fsg, is_type2, _) =
         family_space_group_from_magnetic_space_group(prim_mag_operations, epsilon);
 
+    if prim_xsg.is_empty() || fsg.is_empty() {
+        debug!("Input magnetic operations contain no operation without time reversal.");
+        return None;
+    }
     if (prim_mag_operations.len() % prim_xsg.len() != 0)
         || (prim_mag_operations.len() % fsg.len() != 0)
     {
